@@ -53,36 +53,41 @@ structure Installed where
 def slotsOf (st : SlotSt) (mi : Nat) (arity : Nat) : List Nat :=
   (List.range arity).map (fun p => st.slots (mi, p))
 
-/-- `install_gv` without the publication of v-table pointers -/
+/-- words of the multi-method dispatch tables, per method (uni-methods have none) -/
+def tableWordsOf (c : Compiled) : List (List Word) :=
+  (List.zipIdx (c.methods.zip c.outs)).map (fun (mo, mi) =>
+    if mo.1.vp.length == 1 then [] else mo.2.table.map (fun cell => Word.fn mi cell.1))
+
+/-- `gv_dispatch_table` of each method: where its table starts in `dispatch_data` -/
+def prefixSums : List Nat → Nat → List Nat
+  | [], _ => []
+  | x :: xs, acc => acc :: prefixSums xs (acc + x)
+
+/-- the word `install_gv` writes for one v-table entry -/
+def entryWord (c : Compiled) (bases : List Nat) (e : Entry) : Except Err Word :=
+  match c.outs[e.method]?, c.methods[e.method]? with
+  | some o, some m =>
+    if m.vp.length == 1 then
+      match o.table[e.group]? with
+      | some cell => .ok (Word.fn e.method cell.1)
+      | none => .error (Err.fault "install: group index outside the method's dispatch table")
+    else if e.vp == 0 then .ok (Word.ptr ((bases[e.method]?).getD 0 + e.group))
+    else .ok (Word.num e.group)
+  | _, _ => .error (Err.fault "install: v-table entry of an unknown method")
+
+/-- `install_gv` without the publication of v-table pointers: the multi-method tables first, then
+    the v-tables of the classes in order; each class's v-table pointer is biased by its first slot -/
 def install (c : Compiled) : Except Err Installed := do
-  let arities := c.methods.map (fun m => m.vp.length)
+  let tw := tableWordsOf c
+  let bases := prefixSums (tw.map List.length) 0
+  let rows ← c.vtbl.mapM (fun row => row.mapM (entryWord c bases))
+  let tlen := (tw.map List.length).sum
+  let vptrs : List Int := (List.range c.vtbl.length).map (fun ci =>
+    ((tlen + ((rows.take ci).map List.length).sum : Nat) : Int) - (c.slots.first.get ci : Int))
   let dataSize := (c.outs.map (fun o => o.table.length)).sum + (c.vtbl.map List.length).sum
-  -- multi-method tables
-  let (words, bases) := (List.zipIdx c.outs).foldl
-    (fun (acc : Array Word × List Nat) (o, mi) =>
-      if (arities[mi]?).getD 0 == 1 then (acc.1, acc.2 ++ [0])
-      else (acc.1 ++ (o.table.map (fun cell => Word.fn mi cell.1)).toArray, acc.2 ++ [acc.1.size]))
-    ((#[] : Array Word), ([] : List Nat))
-  -- v-tables
-  let (words, vptrs) ← (List.zipIdx c.vtbl).foldlM
-    (fun (acc : Array Word × List Int) (row, ci) => do
-      let vp : Int := (acc.1.size : Int) - (c.slots.first.get ci : Int)
-      let ws ← row.foldlM (fun (ws : Array Word) (e : Entry) =>
-        match c.outs[e.method]?, arities[e.method]? with
-        | some o, some ar =>
-          if ar == 1 then
-            match o.table[e.group]? with
-            | some cell => .ok (ws.push (Word.fn e.method cell.1))
-            | none => .error (Err.fault "install: group index outside the method's dispatch table")
-          else if e.vp == 0 then .ok (ws.push (Word.ptr ((bases[e.method]?).getD 0 + e.group)))
-          else .ok (ws.push (Word.num e.group))
-        | _, _ => .error (Err.fault "install: v-table entry of an unknown method")) acc.1
-      .ok (ws, acc.2 ++ [vp]))
-    (words, ([] : List Int))
-  let ss := (List.zipIdx c.outs).map (fun (o, mi) =>
-    let ar := (arities[mi]?).getD 0
-    if ar == 1 then [c.slots.slots (mi, 0)] else slotsOf c.slots mi ar ++ o.strides)
-  .ok { data := words, dataSize, vptr := ⟨vptrs.toArray, 0⟩, ss }
+  let ss := (List.zipIdx (c.methods.zip c.outs)).map (fun (mo, mi) =>
+    if mo.1.vp.length == 1 then [c.slots.slots (mi, 0)] else slotsOf c.slots mi mo.1.vp.length ++ mo.2.strides)
+  .ok { data := (tw.flatten ++ rows.flatten).toArray, dataSize, vptr := ⟨vptrs.toArray, 0⟩, ss }
 
 /-! ## a call -/
 
